@@ -311,7 +311,9 @@ Allowed(k, cls) ==
       [] k = "maxstreams" -> MaxStreamsAllowed(cls)
       [] k = "maxstreamdata" -> Outcome(SidErrRecver(cls.a))
       [] k = "stream" -> Outcome(SidErrSender(cls.a) \cup OffErr(cls.b))
-      [] k = "reset" -> Outcome(SidErrSender(cls.a) \cup FinalErr(cls.b))
+      \* RFC 9000 has no explicit MUST for RESET_STREAM on a locally initiated stream that does not exist yet
+      [] k = "reset" -> IF cls.a = "local_bi_unopened" THEN {OK, SS} \cup FinalErr(cls.b)
+                        ELSE Outcome(SidErrSender(cls.a) \cup FinalErr(cls.b))
       [] k = "stop" -> Outcome(SidErrRecver(cls.a))
 \* Classes where the property is silent (or the only question is whether a VALID frame is refused): the specification accepts
 \* acceptance as well as refusal.  Everywhere else the property lists the situation: exactly the prescribed outcome(s),
@@ -323,6 +325,7 @@ Lenient(k, cls) ==
     \/ k = "newcid" /\ cls.a = "next" /\ NcActiveAfter(cls) = RcLimit + 1
     \/ k = "newcid" /\ NcBig(cls.a) /\ NcActiveAfter(cls) <= RcLimit
     \/ k = "maxstreams" /\ cls.b = "p60"
+    \/ k = "reset" /\ cls.a = "local_bi_unopened"
 Strict(k, cls) == ~Lenient(k, cls)
 
 \* size of the state the endpoint holds for the component under attack (records)
